@@ -69,7 +69,7 @@ CHECKS.update({
    note="Liveness waits poll up to 15s and a miss is re-run twice before it is reported; quick tier thins the expiry combinations.", ref="3 C16"),
  "C18": dict(level="fault_enumeration", engine="E4-sys", technique="enumeration of lost node x phase x SIGTERM/SIGKILL x {orderly close, TCP reset} on a 3-node cluster whose lost node is a real piko server process built from the current tree; exhaustive enumeration of unreachable-peer subsets for the real Gossip.Leave on 3-5 in-memory nodes (attempt order inside Leave sampled 8x, stated)",
    text="For the lost node being the join seed or a later joiner, at each phase (idle, upstreams connected, requests in flight, second signal mid-shutdown), by SIGTERM or SIGKILL: the process exits within the grace period, survivors stop listing it as active (left after a graceful stop), no request is answered by a wrong endpoint, listeners (opened as the agent opens them, with upstream authentication) reconnect through the load balancer and every survivor serves every endpoint again; a node that left no longer advertises; connection loss seen as orderly close or as TCP reset; the real Gossip.Leave announces the departure for every subset of just-died peers (order of attempts sampled 8x).",
-   note="Kill points are phase boundaries. Finding D4 repaired by a fix: commit.", ref="3 C18"),
+   note="Kill points are phase boundaries. Findings D4 and D9 repaired by fix: commits.", ref="3 C18"),
 })
 
 PENDING = {}
@@ -108,7 +108,7 @@ def main():
         ],
         "checks": checks,
         "not_applicable": na,
-        "notes": "fix: commits in /repo repair findings D1 (C05), D2 (C17), D3 (C08), D4 (C18), D6 (C13), D7 (C06, C01), D8 (C08); known_findings.json lists recorded findings F1-F3 and the fixed entries.",
+        "notes": "fix: commits in /repo repair findings D1 (C05), D2 (C17), D3 (C08), D4 (C18), D6 (C13), D7 (C06, C01), D8 (C08), D9 (C18); known_findings.json lists recorded findings F1-F3 and the fixed entries.",
     }
     json.dump(m, open(os.path.join(ROOT, "MANIFEST.json"), "w"), indent=1)
     print("wrote MANIFEST.json with %d checks, %d not claimed" % (len(checks), len(na)))
